@@ -14,7 +14,7 @@ for l in open(val):
     results = {}
     for tok in rest.split():
         k, v = tok.split('=', 1); results[k] = v
-    logs = sorted(glob.glob(os.path.join(ROOT, 'work/seedlogs', 'r3*-%s.txt' % name)), key=os.path.getmtime)
+    logs = sorted(glob.glob(os.path.join(ROOT, 'work/seedlogs', 'r[34]*-%s.txt' % name)), key=os.path.getmtime)
     def rule_of(paths):
         for rp in paths:
             try:
